@@ -3,6 +3,9 @@ import Litep2pVerif.Model.Kad.Coordinator
 import Litep2pVerif.Model.Kad.Executor
 import Litep2pVerif.Model.Kad.Serve
 import Litep2pVerif.Generated.Consts
+import Litep2pVerif.Model.Kad.Events
+import Litep2pVerif.Model.Kad.TableWiring
+import Litep2pVerif.Driver.C14
 /-!
 Line-protocol driver for the Kademlia coordinator model (C16), in checker mode: every input line
 is `op -> observation of the implementation`. The engine actions (`act:`) and executor results
@@ -60,6 +63,12 @@ structure DState where
   -- executor box
   execMode : Bool := false
   pool : Kad.Executor.Pool := {}
+  /-- the user does not read the handle's events (`hold` … `release`) -/
+  held : Bool := false
+  /-- the event channel between the coordinator and the handle -/
+  chan : Kad.Events.Chan String := { cap := Consts.KAD_EVENT_CHANNEL_SIZE }
+  /-- `t` box: coordinator with dictated keys (routing-table wiring), keys per peer, open connections -/
+  tb : Option (Kad.Wiring.W × List (Nat × Nat) × List Nat) := none
   deriving Inhabited
 
 def init : DState := {}
@@ -561,31 +570,64 @@ def primitive (d : DState) (ts0 : List String) : Option (DState × String) :=
   | ["events"] => some (d, "ok")
   | _ => none
 
-/-- One primitive operation with the implementation's observation: returns the model's observation. -/
-def runPrimitive (d : DState) (ts : List String) (obs : String) : Option (DState × String) :=
+/-- `q=5,q=6,q=7` → `q=5..7`; `ok,ok,ok` → `ok*3`; anything else joined by `,` (the adapter's `compress_heads`). -/
+def compressHeads (hs : List String) : String :=
+  match hs with
+  | [] => ""
+  | [h] => h
+  | h0 :: _ =>
+    if hs.all (· == h0) then h0 ++ "*" ++ toString hs.length else
+    let split := fun (h : String) => match h.splitOn "=" with
+      | [k, v] => v.toNat?.map (fun n => (k, n))
+      | _ => none
+    match split h0 with
+    | some (k, first) =>
+      if (hs.zipIdx).all (fun (h, i) => split h == some (k, first + i))
+      then k ++ "=" ++ toString first ++ ".." ++ toString (first + hs.length - 1)
+      else joinWith "," hs
+    | none => joinWith "," hs
+
+/-- The primitives `tss` back to back (one for an ordinary operation, `n` for a `burst`) with the implementation's
+observation: returns the model's observation. The events go through the event channel (`Model/Kad/Events.lean`):
+the coordinator emits them while the user does not read; unless the user keeps not reading (`keepHeld`) the user
+then reads everything. -/
+def runPrims (d : DState) (tss : List (List String)) (obs : String) (keepHeld : Bool) : Option (DState × String) :=
   let sidBefore := d.m.nextSid
   let toks := tokens ((obs.splitOn " # ").headD "")
-  match primitive { d with outRx := [], outEv := [], dialCmds := [], err := none, outResp := [], pendingReply := none, replyAddprov := false
-                           implResp := toks.filter (fun t => t.startsWith "resp:") } ts with
+  let d0 := { d with outRx := [], outEv := [], dialCmds := [], err := none, outResp := [], pendingReply := none, replyAddprov := false
+                     implResp := toks.filter (fun t => t.startsWith "resp:") }
+  let r := tss.foldl (fun (acc : Option (DState × List String)) ts =>
+    acc.bind fun (dd, hs) => (primitive dd ts).map fun (d', h) => (d', hs ++ [h])) (some (d0, []))
+  match r with
   | none => none
-  | some (d1, head) =>
+  | some ((d1 : DState), heads) =>
+    let head := compressHeads heads
     let trace := toks.filter (fun t => t.startsWith "act:" || t.startsWith "res:")
     let d2 := applyTrace d1 trace
     let d3a := if engineIdle d2.m.engine then d2 else fail d2 "!engine-not-idle"
     -- the ownership invariant is re-checked on every state the validated trace goes through
     let d3 := if waitingOwnedB d3a.m then d3a else fail d3a "!waiting-not-owned"
     -- end of the operation: the manager and the connections process what they were sent
-    let d4 := d3.dialCmds.foldl (fun d p => setView d p 1) d3
-    let d5 := { d4 with conns := d4.conns.map (fun c => { c with queued := 0 }) }
+    let d4 : DState := d3.dialCmds.foldl (fun d p => setView d p 1) d3
+    let d5 : DState := { d4 with conns := d4.conns.map (fun (c : Conn) => { c with queued := 0 }) }
     let opens := (List.range (d5.m.nextSid - sidBefore)).map fun i =>
       let sid := sidBefore + i
       match d5.m.opening.find? (fun o => o.1 == sid) with
       | some (_, p) => "open:" ++ toString p ++ ":" ++ toString sid
       | none => "open:?:" ++ toString sid
-    let out := trace ++ (match d5.err with | some e => [e] | none => []) ++
-      d5.dialCmds.map (fun p => "dial:" ++ toString p) ++ opens ++
-      (sortBy (fun a b => a.1 < b.1) d5.outRx).map (fun r => "rx:" ++ toString r.1 ++ ":" ++ r.2) ++ d5.outResp ++ d5.outEv
-    some (d5, head ++ " " ++ joinWith " " out ++ " # " ++ stateStr d5.m)
+    -- the event channel: `send(ev).await` per event (the loop suspends when the channel is full), then the user reads
+    let c1 := d5.outEv.foldl (fun c e => (c.emit e).runOne) d5.chan
+    let c2 := if keepHeld then c1 else Kad.Events.Chan.drain (c1.pending + 1) c1
+    let shown := c2.got
+    let d6 := { d5 with chan := { c2 with got := [] }, held := keepHeld }
+    let out := trace ++ (match d6.err with | some e => [e] | none => []) ++
+      d6.dialCmds.map (fun p => "dial:" ++ toString p) ++ opens ++
+      (sortBy (fun a b => a.1 < b.1) d6.outRx).map (fun r => "rx:" ++ toString r.1 ++ ":" ++ r.2) ++ d6.outResp ++ shown
+    some (d6, head ++ " " ++ joinWith " " out ++ " # " ++ stateStr d6.m)
+
+/-- One primitive operation with the implementation's observation: returns the model's observation. -/
+def runPrimitive (d : DState) (ts : List String) (obs : String) : Option (DState × String) :=
+  runPrims d [ts] obs d.held
 
 def ledgerStr (d : DState) : String :=
   let started := (d.m.started.filter fun q => (qinfo d q).map (·.1) != some "refresh").map fun q =>
@@ -708,6 +750,72 @@ def execStep (d : DState) (ts : List String) : DState × String :=
       ({ d with pool := r.1, execMode := true }, outLine r.2)
   | _ => (d, "bad-op")
 
+/-! ### `t` box: the coordinator with dictated keys (routing-table wiring, `Model/Kad/TableWiring.lean`) -/
+
+def tK : Nat := Consts.KBUCKET_CAPACITY
+def tNB : Nat := Consts.NUM_BUCKETS
+
+def tConnChar (s : Kad.Bucket.Slot) : String := C14.connChar s.conn
+
+/-- `p=bucket.slot.conn` or `p=-`. -/
+def tEntry (t : Kad.Table.Table) (p : Nat) : String :=
+  let hits := (t.buckets.zipIdx).filterMap fun (b, bi) =>
+    ((b.zipIdx).find? (fun (s, _) => match s with | .real q => q.peer == p | _ => false)).map fun (s, si) =>
+      toString p ++ "=" ++ toString bi ++ "." ++ toString si ++ "." ++ tConnChar s
+  hits.headD (toString p ++ "=-")
+
+def tStep (d : DState) (ts : List String) : DState × String :=
+  let small := fun (s : String) => s.toNat?.bind fun n => if n ≤ 4 then some n else none
+  match ts, d.tb with
+  | ["new", key], none =>
+    match C14.key? key with
+    | some k => ({ d with tb := some ({ table := Kad.Table.Table.new tNB k }, [], []) }, "ok")
+    | none => (d, "bad-op")
+  | ["new", _], some _ => (d, "bad-op")
+  | _, none => (d, "bad-op")
+  | ts, some (w, keys, conns) =>
+    let known := fun (s : String) => s.toNat?.bind fun p =>
+      if 1 ≤ p ∧ p ≤ 200 then (keys.find? (fun x => x.1 == p)).map (fun x => (p, x.2)) else none
+    let ev := fun (e : Kad.Wiring.Ev) (key : Nat) (conns : List Nat) =>
+      let w' := Kad.Wiring.wstep tK w e
+      ({ d with tb := some (w', keys, conns) }, C14.showSelected w'.table key)
+    match ts with
+    | ["peer", p, key] =>
+      match p.toNat?, C14.key? key with
+      | some p, some k =>
+        if 1 ≤ p ∧ p ≤ 200 ∧ !(keys.any (fun x => x.1 == p)) then ({ d with tb := some (w, keys ++ [(p, k)], conns) }, "ok")
+        else (d, "bad-op")
+      | _, _ => (d, "bad-op")
+    | ["add", p, n] =>
+      match known p, small n with
+      | some (p, k), some n => ev (.addKnown p k n) k conns
+      | _, _ => (d, "bad-op")
+    | ["est", p, dl] =>
+      match known p, (if dl = "1" then some true else if dl = "0" then some false else none) with
+      | some (p, k), some dl => if conns.contains p then (d, "noop") else ev (.established p k dl false) k (conns ++ [p])
+      | _, _ => (d, "bad-op")
+    | ["closed", p] =>
+      match known p with
+      | some (p, k) => if !conns.contains p then (d, "noop") else ev (.closed p k) k (conns.filter (· != p))
+      | none => (d, "bad-op")
+    | ["dialfail", p, n] =>
+      match known p, small n with
+      | some (p, k), some n => ev (.dialFailure p k n) k conns
+      | _, _ => (d, "bad-op")
+    | ["inbound", p] =>
+      match known p with
+      | some (p, k) => if !conns.contains p then (d, "noop") else ev (.inbound p) k conns
+      | none => (d, "bad-op")
+    | "table" :: ps =>
+      let ks := ps.map known
+      if ps.isEmpty ∨ ks.any (·.isNone) then (d, "bad-op") else
+      let items := (ks.filterMap id).map fun (p, _) => tEntry w.table p
+      (d, joinWith " " (items ++ ["P[" ++ natList (sortBy (· < ·) w.peers) ++ "]"]))
+    | ["dump"] =>
+      let idx := (List.range w.table.buckets.length).filter (fun i => !(w.table.buckets.getD i []).isEmpty)
+      (d, if idx.isEmpty then "-" else joinWith ";" (idx.map (C14.showBucket w.table)))
+    | _ => (d, "bad-op")
+
 def step (d : DState) (line : String) : DState × String :=
   let (op, obs) := match line.splitOn " -> " with
     | [] => ("", "")
@@ -716,7 +824,8 @@ def step (d : DState) (line : String) : DState × String :=
   let ts := tokens op
   match ts with
   | "s2" :: rest => (d, s2Step rest obs)
-  | "x" :: rest => if d.ready then (d, "bad-op") else execStep d rest
+  | "t" :: rest => if d.ready ∨ d.execMode then (d, "bad-op") else tStep d rest
+  | "x" :: rest => if d.ready ∨ d.tb.isSome then (d, "bad-op") else execStep d rest
   | "net" :: ks =>
     let kinds := (ks.filter (fun k => !k.contains '=')).map (fun k => k.toList.headD 'x')
     let opts := ks.filter (fun k => k.contains '=')
@@ -724,12 +833,35 @@ def step (d : DState) (line : String) : DState × String :=
     let defaultOk := !opts.contains "default=1" || opts.length == 1
     match d1 with
     | some d1 =>
-      if d.ready ∨ d.execMode ∨ kinds.isEmpty ∨ kinds.length > maxPeer ∨
+      if d.ready ∨ d.execMode ∨ d.tb.isSome ∨ kinds.isEmpty ∨ kinds.length > maxPeer ∨
           kinds.any (fun k => !(k == 'g' || k == 'b' || k == 'n')) ∨ !defaultOk
       then (d, "bad-op") else ({ d1 with ready := true, kinds := kinds }, "ok")
     | none => (d, "bad-op")
+  | ["hold"] => if !d.ready then (d, "bad-op") else ({ d with held := true }, "ok")
+  | "release" :: rest =>
+    if !d.ready ∨ !d.held then (d, "bad-op") else
+    let prims : Option (List (List String)) := match rest with
+      | [] => some [["events"]]
+      | "burst" :: n :: op =>
+        match n.toNat? with
+        | some n => if n < 1 ∨ n > 6000 ∨ op.isEmpty then none else some (List.replicate n op)
+        | none => none
+      | _ => some [rest]
+    match prims.bind (fun ps => runPrims d ps obs false) with
+    | some r => r
+    | none => (d, "bad-op")
+  | "burst" :: n :: rest =>
+    if !d.ready then (d, "bad-op") else
+    match n.toNat? with
+    | some n =>
+      if n < 1 ∨ n > 6000 ∨ rest.isEmpty then (d, "bad-op") else
+      match runPrims d (List.replicate n rest) obs d.held with
+      | some r => r
+      | none => (d, "bad-op")
+    | none => (d, "bad-op")
   | ["settle"] =>
     if !d.ready then (d, "bad-op") else
+    let d := { d with held := false }
     -- the sub-operations the adapter performed are replayed one by one
     let parts := (obs.splitOn " | ").drop 1
     let r := parts.foldl (fun (acc : DState × List String) part =>
